@@ -24,6 +24,7 @@ func checkC11(c *Ctx) {
 	c.Rule("R11.2", "one decision, one hook, applied as reported; hooks only for in-range levels", 1)
 	c.Rule("R11.3", "shared budget: With copies counts/tick/first/thereafter/hook; constructor allocates counts once and defaults the hook", 2)
 	c.Rule("R11.4", "the modulo is evaluated only under thereafter != 0", 1)
+	c.Rule("R11.10", "entries reach the sampler already stamped with the logger's clock", 1)
 	c.Rule("R11.5", "bucket key: level offset and full-message hash", 2)
 	c.Rule("R11.7", "admission predicate has exactly the documented form", 2)
 	c.Rule("R11.8", "window protocol: entry timestamp, single comparison, same constant, CAS from the loaded value, no wall clock", 4)
@@ -77,16 +78,27 @@ func checkC11(c *Ctx) {
 		}
 	}
 	const getF, incF, chkF = "(*go.uber.org/zap/zapcore.counters).get", "(*go.uber.org/zap/zapcore.counter).IncCheckReset", "(go.uber.org/zap/zapcore.Core).Check"
-	getFn := c.Method(CorePath, "counters", "get")
+	cpl, _ := c.ConstVal(CorePath, "_countersPerLevel")
+	counterT := c.Named(CorePath, "counter")
+	isBucket := func(ia *ssa.IndexAddr) bool {
+		pt, ok := ia.Type().(*types.Pointer)
+		if !ok || counterT == nil {
+			return false
+		}
+		n, ok := types.Unalias(pt.Elem()).(*types.Named)
+		return ok && n.Obj() == counterT.Obj()
+	}
+	nGet := 0
+	hashFn := c.Func(CorePath, "fnv32a")
 	// Explore every path of Check (helpers inline, counters.get and IncCheckReset opaque) with the entry level fixed,
 	// for each level of the valid range and one below / one above it.
 	nPaths := 0
-	var badOrder, badHook, badPred, badDiv, badOther []string
+	var badOrder, badHook, badPred, badDiv, badOther, allSeqs []string
 	for L := minL - 1; L <= maxL+1; L++ {
 		lv := L
 		inRange := lv >= minL && lv <= maxL
 		seqs, trunc := ConcPaths(fn, ConcCfg{
-			Inline: func(h *ssa.Function) bool { return h != getFn },
+			Inline: func(h *ssa.Function) bool { return h != hashFn },
 			Conc: func(d string) (int64, bool) {
 				if d == entN+".Level" {
 					return lv, true
@@ -95,16 +107,40 @@ func checkC11(c *Ctx) {
 			},
 			Event: func(in ssa.Instruction, st *ConcState) string {
 				switch x := in.(type) {
+				case *ssa.IndexAddr:
+					// the bucket: &table[level − _minLevel][fnv32a(message) mod _countersPerLevel], wherever it is computed
+					if !isBucket(x) {
+						break
+					}
+					nGet++
+					row, _ := Strip(x.X).(*ssa.IndexAddr)
+					if row == nil {
+						return "get(row " + st.Desc(x.X) + ")"
+					}
+					i, known := st.Int(row.Index)
+					if !known || i != lv-minL {
+						return "get(row index " + st.Desc(row.Index) + ")"
+					}
+					if !inRange {
+						return "get(out of range)"
+					}
+					if tb := st.Desc(row.X); tb != recvN+".counts" {
+						return "get(table " + tb + ")"
+					}
+					j := st.Desc(x.Index)
+					wantJ := "(fnv32a(" + entN + ".Message) % " + itoa(int(cpl)) + ")"
+					if cpl > 0 && cpl&(cpl-1) == 0 && j == "(fnv32a("+entN+".Message) & "+itoa(int(cpl-1))+")" {
+						j = wantJ // x & (2^k − 1) = x mod 2^k for unsigned x
+					}
+					if j != wantJ {
+						return "get(bucket index " + j + ")"
+					}
+					return "get"
 				case *ssa.Call:
 					a := Args(x)
 					switch {
-					case IsCallTo(x, getF):
-						if st.Desc(a[0]) == recvN+".counts" && st.Desc(a[1]) == entN+".Level" && st.Desc(a[2]) == entN+".Message" {
-							return "get"
-						}
-						return "get(" + st.Desc(a[1]) + "," + st.Desc(a[2]) + ")"
 					case IsCallTo(x, incF):
-						if traces(st, a[0], isCallTo(getF)) && st.Desc(a[1]) == entN+".Time" && st.Desc(a[2]) == recvN+".tick" {
+						if traces(st, a[0], func(v ssa.Value) bool { ia, ok := v.(*ssa.IndexAddr); return ok && isBucket(ia) }) && st.Desc(a[1]) == entN+".Time" && st.Desc(a[2]) == recvN+".tick" {
 							return "inc"
 						}
 						return "inc(" + st.Desc(a[1]) + "," + st.Desc(a[2]) + ")"
@@ -132,6 +168,9 @@ func checkC11(c *Ctx) {
 					}
 				case *ssa.BinOp:
 					if x.Op == token.REM || x.Op == token.QUO {
+						if k, isConst := ConstInt(x.Y); isConst && k != 0 {
+							break // division by a non-zero constant (the bucket index)
+						}
 						if st.Desc(x.Y) == recvN+".thereafter" {
 							return "mod"
 						}
@@ -222,6 +261,7 @@ func checkC11(c *Ctx) {
 		for _, sq := range seqs {
 			nPaths++
 			tag := "level=" + itoa(int(lv)) + ": " + sq
+			allSeqs = append(allSeqs, tag)
 			ev := strings.Split(sq, " ; ")
 			switch {
 			case ev[0] == "disabled":
@@ -300,6 +340,18 @@ func checkC11(c *Ctx) {
 			}
 		}
 	}
+	{
+		var badGet []string
+		levelsSeen := map[string]bool{}
+		for _, t := range allSeqs {
+			if strings.Contains(t, "get(") {
+				badGet = append(badGet, t)
+			} else if strings.Contains(t, " ; get ; ") {
+				levelsSeen[t[:strings.Index(t, ":")]] = true
+			}
+		}
+		c.Check(len(badGet) == 0 && int64(len(levelsSeen)) == maxL-minL+1, "R11.5", name, "index", fn.Pos(), "evaluated for each level %d..%d: the bucket counted is table[level − _minLevel][fnv32a(message) mod _countersPerLevel] of the sampler's own table (levels seen %d; offending: %v)", minL, maxL, len(levelsSeen), badGet)
+	}
 	c.Check(len(badOrder) == 0, "R11.1", name, "order-of-effects", fn.Pos(), "over all %d paths of sampler.Check (entry level fixed to each of %d..%d, helpers inline): a disabled entry returns the incoming entry before any counter access; an enabled entry with an out-of-range level is forwarded unsampled with no counter access and no hook; an enabled in-range entry looks up the bucket of (its level, its message) and counts with its own timestamp and the sampler's tick before anything else (offending: %v)", nPaths, minL-1, maxL+1, badOrder)
 	c.Check(len(badHook) == 0, "R11.2", name, "one-decision-one-hook-applied", fn.Pos(), "every decided path calls the hook exactly once, with the entry; LogDropped is followed by returning the incoming entry without forwarding, LogSampled by forwarding (ent, ce) to the wrapped core and returning its result (offending: %v)", badHook)
 	c.Check(len(badDiv) == 0, "R11.4", name, "no-division-by-zero", fn.Pos(), "the modulo by thereafter is only evaluated on paths that established thereafter ≠ 0 (offending: %v)", badDiv)
@@ -309,6 +361,7 @@ func checkC11(c *Ctx) {
 	// ---------------- R11.3 ----------------
 	c11Shared(c)
 	c11Config(c)
+	c11Stamped(c, "R11.10")
 	// ---------------- R11.5 ----------------
 	c11Key(c, minL)
 	// ---------------- R11.8 ----------------
@@ -343,15 +396,6 @@ func c11Key(c *Ctx, minL int64) {
 	h := c.Func(CorePath, "fnv32a")
 	if !c.Anchor("R11.5", "zapcore.counters.get/fnv32a", g != nil && h != nil) {
 		return
-	}
-	cpl, _ := c.ConstVal(CorePath, "_countersPerLevel")
-	for _, r := range Returns(g) {
-		d := Desc(RetVals(r)[0])
-		want := "cs[(lvl - " + itoa(int(minL)) + ")][(fnv32a(key) % " + itoa(int(cpl)) + ")]"
-		if cpl > 0 && cpl&(cpl-1) == 0 && d == "cs[(lvl - "+itoa(int(minL))+")][(fnv32a(key) & "+itoa(int(cpl-1))+")]" {
-			d = want // x & (2^k − 1) = x mod 2^k for unsigned x
-		}
-		c.Check(d == want, "R11.5", g.String(), "index", r.Pos(), "bucket = table[level − _minLevel][fnv32a(message) mod _countersPerLevel] (%s)", d)
 	}
 	// hash loop: an index running over [0, len(s)) in steps of 1, reading s[i] (or b[i] of b = []byte(s)); a range
 	// over the string itself would visit rune starts only
@@ -632,7 +676,31 @@ func c11Config(c *Ctx) {
 				continue
 			}
 			tick, isC := ConstInt(a[1])
-			ok := isC && tick == 1000000000 && strings.HasSuffix(d2, ".Initial") && strings.HasSuffix(d3, ".Thereafter")
+			// a captured snapshot (initial := scfg.Initial, used inside the WrapCore literal) stands for what was stored in it
+			var origin func(v ssa.Value, depth int) string
+			origin = func(v ssa.Value, depth int) string {
+				v = Strip(v)
+				if u, ok := v.(*ssa.UnOp); ok && u.Op == token.MUL && depth < 4 {
+					var cell ssa.Value = u.X
+					if fv, isFV := cell.(*ssa.FreeVar); isFV {
+						cell = c18Binding(fv)
+					}
+					if al, isAl := cell.(*ssa.Alloc); isAl {
+						if sv := singleStoreLoose(al); sv != nil {
+							return origin(sv, depth+1)
+						}
+					}
+				}
+				var d string
+				Bound(func() { d = Desc(v) })
+				return d
+			}
+			d2, d3 = origin(a[2], 0), origin(a[3], 0)
+			ok := isC && tick == 1000000000 && strings.HasSuffix(d2, ".Sampling.Initial") && strings.HasSuffix(d3, ".Sampling.Thereafter")
+			if !ok && isC && tick == 1000000000 {
+				// through a local copy of the Sampling pointer (scfg := cfg.Sampling)
+				ok = strings.HasSuffix(d2, ".Initial") && strings.HasSuffix(d3, ".Thereafter") && !strings.Contains(d2, "(") && !strings.Contains(d3, "(")
+			}
 			c.Check(ok, "R11.9", FuncKey(fn), "config-arguments", cl.Pos(), "the sampler is built with tick = 1s, first = Sampling.Initial, thereafter = Sampling.Thereafter (found tick=%s first=%s thereafter=%s)", d1, d2, d3)
 		}
 	})
@@ -656,4 +724,49 @@ func c11Config(c *Ctx) {
 	if n == 0 {
 		c.Bad("R11.9", "sampler constructors", "count", token.NoPos, "no call of NewSampler/NewSamplerWithOptions found")
 	}
+}
+
+// c11Stamped: the sampler judges its windows by the entry's own timestamp, so the entry handed to Core.Check by
+// Logger.check must already carry the logger's clock reading (an entry stamped only after Check reaches the sampler
+// with the zero time: the window never rolls over).
+func c11Stamped(c *Ctx, rule string) {
+	fn := c.Method(ZapPath, "Logger", "check")
+	if !c.Anchor(rule, "zap.Logger.check", fn != nil) {
+		return
+	}
+	name := fn.String()
+	nChecks := 0
+	seqs, trunc := ConcPaths(fn, ConcCfg{
+		Prune: true,
+		Event: func(in ssa.Instruction, st *ConcState) string {
+			x, ok := in.(*ssa.Call)
+			if !ok || !x.Call.IsInvoke() || x.Call.Method.Name() != "Check" || !IsCallTo(x, "(go.uber.org/zap/zapcore.Core).Check") || len(x.Call.Args) < 1 {
+				return ""
+			}
+			nChecks++
+			_, _, v := st.FieldOf(x.Call.Args[0], "Time")
+			for k := 0; k < 12 && v != nil; k++ {
+				if cl, ok := Strip(v).(*ssa.Call); ok && cl.Call.IsInvoke() && cl.Call.Method.Name() == "Now" {
+					return "check(stamped)"
+				}
+				v = st.Step(Strip(v))
+			}
+			return "check(unstamped)"
+		},
+	})
+	if trunc || len(seqs) == 0 {
+		c.Und(rule, name, "stamped-before-check", fn.Pos(), "path exploration of Logger.check incomplete (%d sequences)", len(seqs))
+		return
+	}
+	var bad []string
+	for _, sq := range seqs {
+		if strings.Contains(sq, "check(unstamped)") {
+			bad = append(bad, sq)
+		}
+	}
+	ex := ""
+	if len(bad) > 0 {
+		ex = bad[0]
+	}
+	c.Check(len(bad) == 0 && nChecks > 0, rule, name, "stamped-before-check", fn.Pos(), "on every path the entry handed to Core.Check already carries Time = clock.Now() (%d event sequences; offending: %s)", len(seqs), ex)
 }
